@@ -1,4 +1,5 @@
 import MosnVerif.Lemmas.Flow
+import MosnVerif.Lemmas.FlowWake
 import MosnVerif.Lemmas.HpackInt
 import MosnVerif.Lemmas.H2Frame
 import MosnVerif.Lemmas.HpackTable
@@ -137,6 +138,79 @@ example : ((run (St.initial .client) demoSchedule).strm 0).rem = 0 ∧ (run (St.
 -- a peer that overflows the connection window gets a connection error, after which nothing is sent
 example : (run (St.initial .server) [.openStream 5, .wuConn 2147483647, .send 0]).trace =
     [.opened, .wuC 2147483647, .connError] := by decide
+
+/-! ## wake-up discipline (senders parked in `cond.Wait()`; `Model/FlowWake.lean`) -/
+section wake
+open MosnVerif.Model.FlowWake MosnVerif.Lemmas.FlowWake
+
+/-- **no_lost_wakeup**: with the Broadcast conditions regenerated from `processWindowUpdate` / `processSettings` of
+either connection, for EVERY schedule (sender goroutines scheduled at arbitrary points between WINDOW_UPDATE /
+SETTINGS frames and stream openings): a sender that sleeps in `cond.Wait()` with no Broadcast pending never has a
+positive available window — whenever a parked sender's window became positive, the step that made it so (or an
+earlier one since it parked) executed `cond.Broadcast()`. -/
+theorem no_lost_wakeup (side : Side) (sched : List Label) (hw : ∀ l ∈ sched, l.wf = true) (i : Nat) :
+    let w := wrun (codePolicy side) (WSt.initial side) sched
+    w.base.closed = false → asleep w i = true →
+    enabled w.base.side (available (w.base.strm i).n true w.base.cn) = false ∧ lostWakeup w i = false := by
+  intro w hc hs
+  have h : WInv w := winv_run _ (codePolicy_ok side) _ sched hw (winv_initial side)
+  have hq : min (w.base.strm i).n w.base.cn ≤ 0 := h.quiet i hs hc
+  have he : enabled w.base.side (available (w.base.strm i).n true w.base.cn) = false := by
+    rw [available_eq]
+    cases hh : enabled w.base.side (min (w.base.strm i).n w.base.cn)
+    · rfl
+    · rw [enabled_iff] at hh; omega
+  exact ⟨he, by simp [lostWakeup, he]⟩
+
+/-- **parking_refines**: the model with explicit parking and Broadcasts writes exactly what the model of enabled sends
+writes, for every schedule — so `sender_respects_windows`, `progress`, `body_completes`, `windows_exact` hold of the
+parking senders as well (this is where the wake-up discipline enters: under a policy that loses a wake-up it fails,
+see `lazy_broadcast_loses_wakeup`). -/
+theorem parking_refines (side : Side) (sched : List Label) (hw : ∀ l ∈ sched, l.wf = true) :
+    (wrun (codePolicy side) (WSt.initial side) sched).base = run (St.initial side) sched :=
+  wrun_base _ (codePolicy_ok side) _ sched hw (winv_initial side)
+
+/-- **body_completes_with_parking**: in every reachable state, once stream and connection window cover the rest of the
+body, scheduling the (possibly parked) sender of stream `i` delivers the complete body. -/
+theorem body_completes_with_parking (side : Side) (sched : List Label) (hw : ∀ l ∈ sched, l.wf = true) (i : Nat) :
+    let s := run (St.initial side) sched
+    s.closed = false → i < s.count → ((s.strm i).rem : Int) ≤ (s.strm i).n → ((s.strm i).rem : Int) ≤ s.cn →
+    ((wrun (codePolicy side) (WSt.initial side) (sched ++ List.replicate (s.strm i).rem (.send i))).base.strm i).rem = 0 := by
+  intro s hc hi hn hcn
+  have hw' : ∀ l ∈ sched ++ List.replicate (s.strm i).rem (Label.send i), l.wf = true := by
+    intro l hl
+    rcases List.mem_append.1 hl with h | h
+    · exact hw l h
+    · rw [(List.mem_replicate.1 h).2]; rfl
+  rw [parking_refines side _ hw']
+  have hp : ∀ (k : Nat) (t : St), run t (List.replicate k (Label.send i)) = pump t i k := by
+    intro k
+    induction k with
+    | zero => intro t; rfl
+    | succ k ih => intro t; simp only [List.replicate_succ, run, List.foldl_cons, pump, step]; exact ih _
+  have hr : run (St.initial side) (sched ++ List.replicate (s.strm i).rem (Label.send i)) = pump s i (s.strm i).rem := by
+    simp only [run, List.foldl_append]; exact hp _ _
+  rw [hr]
+  exact (body_completes side sched hw i hc hi hn hcn).1
+
+/-- **lazy_broadcast_loses_wakeup** (machine-checked witness): "Broadcast only if the window was exactly 0 before the
+increment" violates the obligation, and the violation is reachable: after the peer lowered
+SETTINGS_INITIAL_WINDOW_SIZE mid-body the stream window is negative, the WINDOW_UPDATE that makes it positive is not
+announced, the writer sleeps with 4565 bytes of window and 4465 bytes of body left, and no number of further scheduling
+attempts or positive-window WINDOW_UPDATEs completes the body. -/
+theorem lazy_broadcast_loses_wakeup :
+    (∀ l ∈ lostSchedule, l.wf = true) ∧
+    (peerOf (wrun lazyPolicy (WSt.initial .server) lostSchedule).base.trace).conformant = true ∧
+    lostWakeup (wrun lazyPolicy (WSt.initial .server) lostSchedule) 0 = true ∧
+    ((wrun lazyPolicy (WSt.initial .server) lostSchedule).base.strm 0).n = 5565 ∧
+    ((wrun lazyPolicy (WSt.initial .server) (lostSchedule ++ [.send 0, .wuStream 0 5, .send 0, .send 0])).base.strm 0).rem = 4465 ∧
+    ((wrun (codePolicy .server) (WSt.initial .server) lostSchedule).base.strm 0).rem = 0 := by decide
+
+example : ¬ lazyPolicy.Ok := lazyPolicy_not_ok
+-- non-vacuity of no_lost_wakeup: a reachable state with a sender asleep (window 0 after 65535 bytes)
+example : asleep (wrun (codePolicy .server) (WSt.initial .server) [.openStream 70000, .send 0, .send 0, .send 0, .send 0, .send 0]) 0 = true ∧
+    (wrun (codePolicy .server) (WSt.initial .server) [.openStream 70000, .send 0, .send 0, .send 0, .send 0, .send 0]).base.closed = false := by decide
+end wake
 
 /-! ## HPACK primitive representations -/
 section hpack
